@@ -311,6 +311,12 @@ class NumpyModel:
         if o == '-' and l.shifted is not None and r.shifted is not None and l.shifted[1] == r.shifted[1] \
                 and (l.shifted[0], l.shifted[3]) == (1, 0) and (r.shifted[0], r.shifted[3]) == (0, 1):
             out = out.w(pair_width=l.shifted[1])  # e[1:] - e[:-1]: the lengths of all parts
+        # elementwise result of a 1-D array of known symbolic length and a scalar / an array of the same length
+        if ty == 'ndarray':
+            sl, sr = (l.symlen if l.ty == 'ndarray' else None), (r.symlen if r.ty == 'ndarray' else None)
+            if (sl is not None and (r.ty in ('int', 'float', 'bool', 'FloatWithUnit') or sr == sl)) or \
+                    (sr is not None and l.ty in ('int', 'float', 'bool', 'FloatWithUnit')):
+                out = out.w(symlen=sl if sl is not None else sr)
         g = self.geo_binop(interp, o, l, r, node)
         out = out.w(geo=g)
         # axes: broadcasting keeps the axes of the higher-rank operand when known
